@@ -2,6 +2,7 @@
 pybrops.breed.prot.mate.{util, SelfCross, TwoWay(DH)Cross, ThreeWay(DH)Cross, FourWay(DH)Cross}, pybrops.core.util.mate,
 plus the independent predicate (provenance tracing on the implementation's outputs)."""
 import struct
+from fractions import Fraction
 import numpy
 import coqemit as E
 from rngscript import Scripted, ScriptExhausted
@@ -395,13 +396,18 @@ def emit_case(case, out):
             return "(let m := mat_dh %s %s %s %s in zlll_eqb (fst m) %s && shapes_eqb (reqs (snd m)) %s)" % (G, S, X, r0, Zl3(out["res"]), _shapes(out["shapes"]))
         return ("(let m := mat_mate %s %s %s %s %s %s in zlll_eqb (fst m) %s && shapes_eqb (reqs (snd m)) %s)"
                 % (G, Zl3(case["geno2"]), S, Nl(case["sel2"]), X, r0, Zl3(out["res"]), _shapes(out["shapes"])))
-    if case.get("real_rng") is not None:
-        return None
-    draws = _carve(case["pool"], out["shapes"])
     xc = case["xconfig"]
-    call = ("(mate %s %s (q10l %s) %s %s %s %s %d%%nat %s %s (q10lll %s))"
-            % (COQP[case["proto"]], Zl3(case["geno"]), Zl(case["xoprob"]), _meta_term(out["meta_in"]),
-               Nl2(xc) if xc else "[]", _count(case["nmating"]), _count(case["nprogeny"]), case["nself"], E.z(case["pc"]), E.z(case["fc"]), Zl3(draws)))
+    if case.get("real_rng") is not None:
+        # real PCG64 draws and real probabilities: shipped as the exact rationals of the binary64 values
+        if len(case["geno"][0]) * len(case["xoprob"]) > 60 or sum(len(m) for m in out.get("drawn", [])) > 60:
+            return None                                  # large provenance cases stay predicate-only
+        Q = lambda v: E.q(Fraction(float(v)))
+        xoq = E.lst(case["xoprob_f"], Q); dq = E.lst3(out["drawn"], Q)
+    else:
+        xoq = "(q10l %s)" % Zl(case["xoprob"]); dq = "(q10lll %s)" % Zl3(_carve(case["pool"], out["shapes"]))
+    call = ("(mate %s %s %s %s %s %s %s %d%%nat %s %s %s)"
+            % (COQP[case["proto"]], Zl3(case["geno"]), xoq, _meta_term(out["meta_in"]),
+               Nl2(xc) if xc else "[]", _count(case["nmating"]), _count(case["nprogeny"]), case["nself"], E.z(case["pc"]), E.z(case["fc"]), dq))
     if "error" in out:
         return "(agree_mate %s None)" % call
     names = [[ord(ch) for ch in s] for s in out["taxa"]]
@@ -639,17 +645,21 @@ def pred(case, out):
     return seen[:8]
 
 def classify(case, out, clauses):
+    """a failure belongs to a known finding only if *every* clause is explained by a finding whose input pattern is present"""
     if case["kind"] != "proto" or not clauses: return None
     m = case["meta"]
-    if (m.get("vrnt_hapalt") is not None or m.get("vrnt_hapref") is not None) and \
-       all(c.startswith("marker metadata vrnt_hapalt not carried") or c.startswith("marker metadata vrnt_hapref not carried") for c in clauses):
-        return F_HAP
+    hap_in = m.get("vrnt_hapalt") is not None or m.get("vrnt_hapref") is not None
     nm, np_ = _counts(case)
+    name_in = False
     if len(nm) == len(case["xconfig"]) == len(np_):
         N = sum(a * b for a, b in zip(nm, np_))
-        if 0 <= case["pc"] < 10 ** 7 <= case["pc"] + N - 1 and all(c.startswith("progeny are not in cross-configuration order") for c in clauses):
-            return F_NAME
-    return None
+        name_in = 0 <= case["pc"] < 10 ** 7 <= case["pc"] + N - 1
+    hit = []
+    for c in clauses:
+        if hap_in and (c.startswith("marker metadata vrnt_hapalt not carried") or c.startswith("marker metadata vrnt_hapref not carried")): hit.append(F_HAP)
+        elif name_in and c.startswith("progeny are not in cross-configuration order"): hit.append(F_NAME)
+        else: return None
+    return F_NAME if F_NAME in hit else F_HAP
 
 def nontrivial(case, out):
     if "exc" in out or "error" in out: return False
@@ -691,20 +701,24 @@ def shrink(case, fails):
     import copy
     cur = copy.deepcopy(case)
     if cur["kind"] != "proto": return cur
-    # fewer crosses
+    def still(t):
+        """still failing, and still not a known finding"""
+        try: o = run_impl(t)
+        except Exception as e: o = {"exc": type(e).__name__, "msg": str(e)[:200]}
+        cl = pred(t, o)
+        return bool(cl) and classify(t, o, cl) is None
     while len(cur["xconfig"]) > 1:
         t = copy.deepcopy(cur); t["xconfig"] = t["xconfig"][:-1]
         for k in ("nmating", "nprogeny"):
             if not isinstance(t[k], int): t[k] = t[k][:-1]
-        if fails(t): cur = t
+        if still(t): cur = t
         else: break
-    for k in ("nself",):
-        while cur[k] > 0:
-            t = copy.deepcopy(cur); t[k] -= 1
-            if fails(t): cur = t
-            else: break
+    while cur["nself"] > 0:
+        t = copy.deepcopy(cur); t["nself"] -= 1
+        if still(t): cur = t
+        else: break
     for k in ("nmating", "nprogeny"):
         for v in (1, 2):
             t = copy.deepcopy(cur); t[k] = v
-            if fails(t): cur = t; break
+            if still(t): cur = t; break
     return cur
